@@ -753,6 +753,12 @@ pub fn gen(r: &mut Rng, n: usize, flavor: &str) -> Vec<String> {
         }
     }
     if flavor == "C01" {
+        // the whole client in closed loop: real manager and real connection tasks, replies not scripted (theorem T6)
+        for _ in 0..(n / 16) {
+            out.push(crate::sysloop::gen_sys(r));
+        }
+    }
+    if flavor == "C01" {
         // piece file names: bytes with a zero high or low digit, letters, extremes
         for k in 0..16 {
             let mut h = r.bytes(20);
